@@ -1,6 +1,7 @@
 import IstioModel.Common.Wire
 import IstioModel.C09.Model
 import IstioModel.C09.Authn
+import IstioModel.C09.Compose
 
 /-! Line-protocol driver for C09 (streams `issue`, `authn`). See harness/c09. -/
 namespace IstioModel.C09
@@ -49,7 +50,8 @@ def metaStr (t : String) : String :=
   if t.startsWith "s:" then dec ((t.drop 2).toString) else ""
 
 def podOfFields (f : List String) : Pod :=
-  { name := fieldAt f 0, ns := fieldAt f 1, uid := fieldAt f 2, sa := fieldAt f 3, node := fieldAt f 4 }
+  { name := fieldAt f 0, ns := fieldAt f 1, uid := fieldAt f 2, sa := fieldAt f 3, node := fieldAt f 4,
+    failed := fieldAt f 5 == "F" }
 
 def trustedOf (t : String) : String × String :=
   match t.splitOn "/" with
@@ -79,12 +81,16 @@ def showIssue (srv : Server) (req : Request) (r : Resp CertData) : String :=
     | .leaf d :: _ =>
       let t := d.tmpl
       let clamp := srv.ca.bundle.signerNotAfter == some t.notAfter
-      let life := if clamp then "clamp" else toString ((t.notAfter - t.notBefore) / sec - 120)
+      let capped := match srv.ca.bundle.chain with
+        | c :: _ => decide (0 ≤ t.notAfter - c.notAfter ∧ t.notAfter - c.notAfter ≤ 60 * sec)
+        | [] => false
+      let life := if clamp then "clamp" else if capped then "chaincap" else toString ((t.notAfter - t.notBefore) / sec - 120)
       let le := match srv.ca.bundle.signerNotAfter with
         | some s => decide (t.notAfter ≤ s)
         | none => false
       let san := if t.san.isEmpty then "-" else ",".intercalate (t.san.map showSan)
-      s!"ok san={san} cn={enc t.subjectCN} ca={boolTok t.isCA} bc={boolTok t.bcValid} key={boolTok (d.pubKey == req.csr.pubKey)} ku={t.keyUsage} eku={encList (t.extKeyUsage.map ekuOID)} xext={encList t.otherExts} life={life} le={boolTok le} chain={chain.length} mid=1 root={boolTok srv.ca.bundle.hasRoot}"
+      let subj := (if t.subjectCN.isEmpty then [] else ["2.5.4.3=" ++ t.subjectCN]) ++ t.subjectOther
+      s!"ok san={san} subj={encList subj} sig=1 ca={boolTok t.isCA} bc={boolTok t.bcValid} key={boolTok (d.pubKey == req.csr.pubKey)} ku={t.keyUsage} eku={encList (t.extKeyUsage.map ekuOID)} xext={encList t.otherExts} life={life} le={boolTok le} chain={chain.length} mid=1 root={boolTok srv.ca.bundle.hasRoot}"
     | _ => "ok-without-leaf"
 
 def stepIssue (d : DState) (toks : List String) : DState × String :=
@@ -118,25 +124,28 @@ def stepIssue (d : DState) (toks : List String) : DState × String :=
                              otherMeta := (List.range (parseInt junk).toNat).map (fun i => (toString i, "junk")) }
       let srv := Server.new ca d.trusted d.clusters
       let now := d.clock + sec
-      ({ d with clock := now }, showIssue srv req (createCertificate repoGuard id srv c os req now))
+      ({ d with clock := now }, showIssue srv req (createCertificate repoFixes id srv c os req now))
   | _ => (d, "bad-op")
 
-/-! ### stream `authn` -/
+/-! ### stream `authn` (and the real-authenticator requests `reqa` of stream `issue`) -/
 
 def showKube (k : KubeInfo) : String :=
   enc ("|".intercalate ([k.podName, k.podNamespace, k.podUID, k.podSA].map enc))
 
-def showClient : Option Client → String
-  | none => ""
-  | some .primary => " via=primary"
-  | some (.remote id) => " via=" ++ enc ("remote:" ++ id)
+def clientName : Client → String
+  | .primary => "primary"
+  | .remote id => "remote:" ++ id
 
-def showAuthRes (r : AuthRes) (via : Option Client) : String :=
+def showCall : Option ReviewCall → String
+  | none => ""
+  | some c => s!" via={enc (clientName c.client)} aud={encList c.audiences} tok={enc c.token}"
+
+def showAuthRes (r : AuthRes) (via : String) : String :=
   match r with
   | .crash => "crash"
   | .nil => "nil"
-  | .err => "err" ++ showClient via
-  | .ok c => s!"ok ids={encList c.identities} kube={showKube c.kube}" ++ showClient via
+  | .err => "err" ++ via
+  | .ok c => s!"ok ids={encList c.identities} kube={showKube c.kube}" ++ via
 
 def extraOf (t : String) : Option (List String) :=
   if t.startsWith "=" then (if t == "=" then some [] else some (decList ((t.drop 1).toString))) else none
@@ -153,9 +162,23 @@ def hexBytes : List Char → List Nat
   | a :: b :: rest => (hexNib a * 16 + hexNib b) :: hexBytes rest
   | _ => []
 
+/-- SAN values of a client certificate are byte strings (`string(id.Value)` in Go): they are kept
+    as one character per byte and printed byte-wise (`encBytes`), so that an IP SAN with bytes
+    >= 0x80 (not valid UTF-8) round-trips. -/
+def bytesStr (b : List Nat) : String := String.ofList (b.map Char.ofNat)
+
 def sanValue (e : String) : String :=
-  if e.startsWith "I:" then String.ofList ((hexBytes ((e.drop 2).toString.toList)).map Char.ofNat)
-  else (e.drop 2).toString
+  if e.startsWith "I:" then bytesStr (hexBytes ((e.drop 2).toString.toList))
+  else bytesStr ((e.drop 2).toString.toUTF8.toList.map (·.toNat))
+
+def encBytes (s : String) : String :=
+  if s.isEmpty then "~" else
+  String.ofList <| s.toList.flatMap fun ch =>
+    let n := ch.toNat
+    if n < 128 && safeChar ch then [ch] else ['%', hexDigit (n / 16 % 16), hexDigit (n % 16)]
+
+def encListBytes (l : List String) : String :=
+  if l.isEmpty then "-" else ",".intercalate (l.map encBytes)
 
 def certOf (spec : String) : CertSAN :=
   if spec == "nosan" then .noSan
@@ -171,39 +194,95 @@ def xfccElemOf (s : String) : XfccElem :=
   { uris := decList (fieldAt f 0), dns := decList (fieldAt f 1),
     subject := if fieldAt f 2 == "1" then some (fieldAt f 3) else none }
 
-def stepAuthn (toks : List String) : String :=
+def transportOf (t : String) : Transport := if t == "http" then .http else .grpc
+
+/-- the `authorization` values for a header form -/
+def authValsOf (form tok : String) : List String :=
+  if form == "bearer" then ["Bearer " ++ tok]
+  else if form == "istio" then ["Istio " ++ tok]
+  else if form == "basic" then ["Basic dXNlcjpwYXNz"]
+  else if form == "two" then ["Basic dXNlcjpwYXNz", "Bearer " ++ tok]
+  else []
+
+/-- what the evaluation of one authenticator spec gives: result, trailer of the output line, and
+    the transport-level facts `security.Authenticate` reads (peer present, TLS auth info) -/
+structure SpecRes where
+  res     : AuthRes
+  trailer : String := ""
+  hasPeer : Bool := true
+  tls     : Bool := true
+  bytes   : Bool := false   -- identities are byte strings (client certificate)
+
+/-- `clusterOverride`: for `reqa` the request's own `clusterid` metadata replaces the spec's -/
+def evalSpec (toks : List String) (clusterOverride : Option (Option (List String))) : Option SpecRes :=
   match toks with
-  | ["oidc", td, expected, tokkind, sub, audkind, aud] =>
-    let tok : OidcTok :=
-      if tokkind == "nohdr" then .noHeader
-      else if tokkind != "ok" then .rejected
+  | ["oidc", tr, td, expected, form, tokkind, sub, audkind, aud] =>
+    let verdict : OidcTok :=
+      if tokkind != "ok" then .rejected
       else if audkind == "string" then .badClaims
       else .claims (if sub == "absent" then "" else dec sub) (if audkind == "absent" then [] else decList aud)
-    showAuthRes (oidcAuthenticate repoOidcFixed (dec td) (decList expected) tok) none
-  | ["kube", td, primary, aliases, remotes, clusterHdr, tokHdr, review] =>
+    some { res := oidcEntry repoOidcFixed (dec td) (decList expected) (transportOf tr) (authValsOf form "T") verdict }
+  | ["kube", tr, td, primary, aliases, remotes, clusterHdr, form, tok, tokenAud, review] =>
     let f := decFields (dec review)
     let r : Review := { apiErr := fieldAt f 0 == "1", error := fieldAt f 1, authenticated := fieldAt f 2 == "1",
                         groups := decList (fieldAt f 3), username := fieldAt f 4,
                         podName := extraOf (fieldAt f 5), podUID := extraOf (fieldAt f 6) }
     let cfg : KubeCfg := { primary := dec primary, aliases := (decList aliases).map aliasPair,
                            remotes := if remotes == "nil" then none else some (decList remotes) }
-    let hdr := if clusterHdr == "-" then none else some (decList clusterHdr)
-    let res := kubeAuthenticate (dec td) cfg hdr (tokHdr == "bearer") r
-    showAuthRes res.1 res.2
-  | ["xfcc", cidrs, peerAddr, hdrs, parsed] =>
+    let hdr := match clusterOverride with
+      | some o => o
+      | none => if clusterHdr == "-" then none else some (decList clusterHdr)
+    let res := kubeAuthenticate (transportOf tr) (dec td) cfg hdr (authValsOf form (dec tok)) (decList tokenAud) r
+    some { res := res.1, trailer := showCall res.2 }
+  | ["xfcc", _tr, cidrs, peerAddr, hdrs, parsed] =>
     let addr := if peerAddr == "nopeer" then "unknown" else dec peerAddr
     let hs := if hdrs == "-" then [] else decList hdrs
     let p := if parsed == "err" then none else some ((decList parsed).map xfccElemOf)
-    showAuthRes (xfccAuthenticate (decList cidrs) addr hs p) none
-  | ["cert", kind, chains] =>
+    some { res := xfccAuthenticate (decList cidrs) addr hs p, hasPeer := peerAddr != "nopeer" }
+  | ["cert", _tr, kind, chains] =>
     let k : PeerKind := if kind == "tls" then .tls else if kind == "noauth" then .noAuth else if kind == "other" then .other else .noPeer
-    showAuthRes (certAuthenticate k ((decList chains).map chainOf)) none
-  | _ => "bad-op"
+    some { res := certAuthenticate k ((decList chains).map chainOf), hasPeer := kind != "nopeer", tls := kind == "tls", bytes := true }
+  | _ => none
+
+def showSpecRes (r : SpecRes) : String :=
+  match r.res with
+  | .ok c =>
+    if r.bytes then s!"ok ids={encListBytes c.identities} kube={showKube c.kube}" ++ r.trailer
+    else showAuthRes r.res r.trailer
+  | _ => showAuthRes r.res r.trailer
+
+def stepAuthn (toks : List String) : String :=
+  match evalSpec toks none with
+  | some r => showSpecRes r
+  | none => "bad-op"
+
+/-- `reqa <authspec> <csr> <ttl> <imp> <signer> <cluster> <junk>`: CreateCertificate with one REAL
+    authenticator in `Server.Authenticators`. -/
+def stepReqA (d : DState) (toks : List String) : DState × String :=
+  match toks with
+  | [spec, csr, ttl, imp, signer, cluster, junk] =>
+    match d.ca with
+    | none => (d, "no-ca")
+    | some ca =>
+      if !d.naSet then (d, "no-ca") else
+      let clusterIDs := if cluster == "-" then none else some (decList cluster)
+      match evalSpec (words (dec spec)) (some clusterIDs) with
+      | none => (d, "bad-op")
+      | some r =>
+        let c : Ctx := { xdsAuth := true, hasPeer := r.hasPeer, tls := r.tls, authPlaintext := false, clusterIDs := clusterIDs }
+        let req : Request := { csr := csrOfFields (decFields (dec csr)), validity := parseInt ttl,
+                               impersonated := metaStr imp, certSigner := metaStr signer,
+                               otherMeta := (List.range (parseInt junk).toNat).map (fun i => (toString i, "junk")) }
+        let srv := Server.new ca d.trusted d.clusters
+        let now := d.clock + sec
+        ({ d with clock := now }, showIssue srv req (createCertificateFull repoFixes id srv c [r.res] req now))
+  | _ => (d, "bad-op")
 
 def stepD (d : DState) (toks : List String) : DState × String :=
   match toks with
   | "case" :: _ => ({}, "ok")
   | "authn" :: rest => (d, stepAuthn rest)
+  | "reqa" :: rest => stepReqA d rest
   | _ => stepIssue d toks
 
 end IstioModel.C09
